@@ -19,6 +19,7 @@ use crypto_bigint::subtle::{
     CtOption,
 };
 use crypto_bigint::{
+    Gcd, InvMod, Inverter, Odd, PrecomputeInverter, U192, U384, U512, U1024,
     AddMod, BitOps, BoxedUint, Checked, CheckedAdd, CheckedDiv, CheckedMul, CheckedSub, ConstChoice, ConstCtOption,
     ConstantTimeSelect, DivRemLimb, DivVartime, Integer, Limb, MulMod, NegMod, NonZero, Reciprocal, RemLimb,
     ShlVartime, ShrVartime, SquareRoot, SubMod, U64, U128, U256, Uint, WideningMul, Wrapping, WrappingAdd, WrappingMul,
@@ -971,6 +972,173 @@ fn const_conv(op: &str, a: &[&str]) -> Option<String> {
     })
 }
 
+
+// ------------------------------------------------------------------------------------------------
+// BoxedUint operands of two different precisions: the result precision is part of the output
+// (documented: add / sub / bit operators "widened to the same width as the widest input", `mul` "a limb
+// count equal to the sums of the input limb counts", `wrapping_mul` "the width of self")
+// ------------------------------------------------------------------------------------------------
+
+fn bm(op: &str, a: &[&str]) -> Option<String> {
+    let [na, x, nb, y] = a else { return Some(BAD.into()) };
+    let (bx, by) = (arg!(boxed(x, arg!(dec(na)))), arg!(boxed(y, arg!(dec(nb)))));
+    let b = |v: &BoxedUint| bhexlen(v);
+    Some(match op {
+        "c15.bm.add" => routes![
+            b(&bx.wrapping_add(&by)),
+            b(&WrappingAdd::wrapping_add(&bx, &by)),
+            b(&bx.adc(&by, Limb::ZERO).0),
+            b(&(Wrapping(bx.clone()) + Wrapping(by.clone())).0),
+            b(&by.wrapping_add(&bx)),
+            optb(CheckedAdd::checked_add(&bx, &by)),
+            b(&(&bx + &by)),
+            b(&(bx.clone() + by.clone())),
+            b(&(bx.clone() + &by)),
+            b(&(&bx + by.clone())),
+        ],
+        "c15.bm.sub" => routes![
+            b(&bx.wrapping_sub(&by)),
+            b(&WrappingSub::wrapping_sub(&bx, &by)),
+            b(&bx.sbb(&by, Limb::ZERO).0),
+            b(&(Wrapping(bx.clone()) - Wrapping(by.clone())).0),
+            optb(CheckedSub::checked_sub(&bx, &by)),
+            b(&(&bx - &by)),
+            b(&(bx.clone() - by.clone())),
+            b(&(bx.clone() - &by)),
+            b(&(&bx - by.clone())),
+        ],
+        "c15.bm.and" => routes![
+            b(&bx.bitand(&by)), b(&(bx.clone() & by.clone())), b(&(bx.clone() & &by)), b(&(&bx & by.clone())), b(&(&bx & &by)),
+            { let mut t = bx.clone(); t &= by.clone(); b(&t) }, { let mut t = bx.clone(); t &= &by; b(&t) },
+            b(&bx.wrapping_and(&by)), optb(bx.checked_and(&by)), b(&by.bitand(&bx)),
+        ],
+        "c15.bm.or" => routes![
+            b(&bx.bitor(&by)), b(&(bx.clone() | by.clone())), b(&(bx.clone() | &by)), b(&(&bx | by.clone())), b(&(&bx | &by)),
+            { let mut t = bx.clone(); t |= by.clone(); b(&t) }, { let mut t = bx.clone(); t |= &by; b(&t) },
+            b(&bx.wrapping_or(&by)), optb(bx.checked_or(&by)), b(&by.bitor(&bx)),
+        ],
+        "c15.bm.xor" => routes![
+            b(&bx.bitxor(&by)), b(&(bx.clone() ^ by.clone())), b(&(bx.clone() ^ &by)), b(&(&bx ^ by.clone())), b(&(&bx ^ &by)),
+            { let mut t = bx.clone(); t ^= by.clone(); b(&t) }, { let mut t = bx.clone(); t ^= &by; b(&t) },
+            b(&bx.wrapping_xor(&by)), optb(bx.checked_xor(&by)), b(&by.bitxor(&bx)),
+        ],
+        "c15.bm.cmp" => {
+            let from_ct = |lt: Choice, gt: Choice| -> String {
+                if bool::from(lt) { "lt".into() } else if bool::from(gt) { "gt".into() } else { "eq".into() }
+            };
+            routes![
+                ord(bx.cmp(&by)),
+                ord(bx.partial_cmp(&by).unwrap()),
+                ord(by.cmp(&bx).reverse()),
+                from_ct(bx.ct_lt(&by), bx.ct_gt(&by)),
+                if bx == by { "eq".into() } else if bx < by { "lt".into() } else { "gt".to_string() },
+                if bool::from(bx.ct_eq(&by)) { "eq".into() } else if bool::from(by.ct_gt(&bx)) { "lt".into() } else { "gt".to_string() },
+            ]
+        }
+        "c15.bm.mul" => routes![
+            b(&bx.mul(&by)),
+            b(&by.mul(&bx)),
+            b(&(bx.clone() * by.clone())),
+            b(&(bx.clone() * &by)),
+            b(&(&bx * by.clone())),
+            b(&WideningMul::widening_mul(&bx, by.clone())),
+            b(&WideningMul::widening_mul(&bx, &by)),
+            { let mut w = bx.clone(); w *= by.clone(); b(&w) },
+            { let mut w = bx.clone(); w *= &by; b(&w) },
+            b(&bx.wrapping_mul(&by)),
+            b(&WrappingMul::wrapping_mul(&bx, &by)),
+            optb(CheckedMul::checked_mul(&bx, &by)),
+            b(&(&bx * &by)),
+        ],
+        "c15.bm.gcd" => routes![
+            b(&Gcd::gcd(&bx, &by)),
+            b(&Gcd::gcd_vartime(&bx, &by)),
+            b(&Gcd::gcd(&by, &bx)),
+            b(&Gcd::gcd_vartime(&by, &bx)),
+        ],
+        _ => return None,
+    })
+}
+
+// ------------------------------------------------------------------------------------------------
+// C10: inversion and gcd (concrete aliases: `PrecomputeInverter` is implemented per alias)
+// ------------------------------------------------------------------------------------------------
+
+macro_rules! impl_c10 {
+    ($name:ident, $U:ty, $N:expr) => {
+        fn $name(op: &str, a: &[&str]) -> Option<String> {
+            type U = $U;
+            const N: usize = $N;
+            let ou = |o: Option<U>| o.map(|v| uhex(&v)).unwrap_or("none".into());
+            Some(match (op, a) {
+                ("c15.inv_mod2k", [x, k]) => {
+                    let (x, bx, k) = (arg!(uint::<N>(x)), arg!(boxed(x, N)), arg!(dec32(k)));
+                    let bo = |r: (BoxedUint, Choice)| if bool::from(r.1) { bhexlen(&r.0) } else { "none".into() };
+                    routes![
+                        ou(x.inv_mod2k(k).into()),
+                        ou(x.inv_mod2k_vartime(k).into()),
+                        bo(bx.inv_mod2k(k)),
+                        bo(bx.inv_mod2k_vartime(k)),
+                    ]
+                }
+                // m odd: one-shot `inv_odd_mod` / `inv_mod` vs the precomputed inverter
+                ("c15.inv_odd_mod", [x, m]) => {
+                    let (x, m) = (arg!(uint::<N>(x)), arg!(uint::<N>(m)));
+                    let (bx, bmod) = (arg!(boxed(a[0], N)), arg!(boxed(a[1], N)));
+                    let om = arg!(Option::<Odd<U>>::from(Odd::new(m)));
+                    let bom = arg!(Option::<Odd<BoxedUint>>::from(Odd::new(bmod.clone())));
+                    let inv = om.precompute_inverter();
+                    let binv = bom.precompute_inverter();
+                    routes![
+                        ou(x.inv_odd_mod(&om).into()),
+                        ou(inv.invert(&x).into()),
+                        ou(inv.invert_vartime(&x).into()),
+                        ou(x.inv_mod(&m).into()),
+                        ou(InvMod::inv_mod(&x, &m).into()),
+                        optb(bx.inv_odd_mod(&bom)),
+                        optb(binv.invert(&bx)),
+                        optb(binv.invert_vartime(&bx)),
+                        optb(bx.inv_mod(&bmod)),
+                        optb(InvMod::inv_mod(&bx, &bmod)),
+                    ]
+                }
+                ("c15.gcd", [x, y]) => {
+                    let (x, y) = (arg!(uint::<N>(x)), arg!(uint::<N>(y)));
+                    let (bx, by) = (arg!(boxed(a[0], N)), arg!(boxed(a[1], N)));
+                    routes![
+                        uhex(&x.gcd(&y)),
+                        uhex(&Gcd::gcd(&x, &y)),
+                        uhex(&Gcd::gcd_vartime(&x, &y)),
+                        bhexlen(&Gcd::gcd(&bx, &by)),
+                        bhexlen(&Gcd::gcd_vartime(&bx, &by)),
+                    ]
+                }
+                _ => return None,
+            })
+        }
+    };
+}
+impl_c10!(c10_1, U64, 1);
+impl_c10!(c10_2, U128, 2);
+impl_c10!(c10_3, U192, 3);
+impl_c10!(c10_4, U256, 4);
+impl_c10!(c10_6, U384, 6);
+impl_c10!(c10_8, U512, 8);
+impl_c10!(c10_16, U1024, 16);
+
+fn c10(n: usize, op: &str, a: &[&str]) -> Option<String> {
+    match n {
+        1 => c10_1(op, a),
+        2 => c10_2(op, a),
+        3 => c10_3(op, a),
+        4 => c10_4(op, a),
+        6 => c10_6(op, a),
+        8 => c10_8(op, a),
+        16 => c10_16(op, a),
+        _ => Some("unsupported-width".to_string()),
+    }
+}
+
 macro_rules! with_w {
     ($n:expr, $f:ident, $($args:expr),*) => {
         match $n {
@@ -991,6 +1159,9 @@ pub fn dispatch(op: &str, a: &[&str]) -> Option<String> {
     if op.starts_with("c15.l.") {
         return limb_op(op, a);
     }
+    if op.starts_with("c15.bm.") {
+        return bm(op, a);
+    }
     if op.starts_with("c15.const.") {
         return match const_conv(op, a) {
             Some(s) => Some(s),
@@ -1004,6 +1175,9 @@ pub fn dispatch(op: &str, a: &[&str]) -> Option<String> {
     let rest = &a[1..];
     if op == "c15.mul_mod" {
         return mul_mod(n, rest);
+    }
+    if matches!(op, "c15.inv_mod2k" | "c15.inv_odd_mod" | "c15.gcd") {
+        return c10(n, op, rest);
     }
     with_w!(n, fx, op, rest)
 }
